@@ -4,6 +4,8 @@ from . import rules_locks as RL
 from . import rules_lw as RW
 from . import rules_qd as RQ
 from . import rules_guard as RG
+from . import rules_ord as RO
+from . import rules_ua as RU
 
 ASSUMPTIONS = [
     "rustc's MIR construction, type checking and callee resolution (facts are read from the compiler's own built MIR)",
@@ -47,83 +49,142 @@ def prop(pid, explanation, decided, not_decided, rules, assumptions=None):
     PROPS[pid] = {'explanation': explanation, 'decided': decided, 'not_decided': not_decided, 'rules': rules, 'assumptions': assumptions or []}
 
 
-prop('C01',
-     'Static structural rules over the type-checked program (built MIR): the right to run a queue is modelled as a token; '
-     'the check decides that jobs execute only with the token held (interprocedural typestate over the extracted state writes), '
-     'that the token is acquired in the critical section that tested the state, and that no configuration with two holders is '
-     'reachable in the protocol extracted from the code (counting abstraction over the extracted transition relation). '
-     'It decides the shape of the protocol for all schedules at once, not the behaviour of executions.',
-     ['jobs execute only under the token (TOK-exec)', 'no second holder reachable in the extracted protocol (PA-excl)',
-      'a suspended job goes back to the queue before any release (TOK-requeue)'],
-     ['that the abstraction\'s transitions are the only way threads interleave (trusted: all accesses go through Mutex<JobQueueCore>)',
-      'overlap of a completed future_sync user future\'s destructor with the next operation'],
-     [(RP.tok_exec, None), (RP.pa_rules, {'PA-excl', 'PA-stuck', 'PA'}), (RP.tok_requeue, None), (RQ.qd_queue, None)])
+COMMON = ('Static structural rules decided on the type-checked program (rustc built MIR of every body of the crate, extracted on every run): '
+          'each rule is a necessary condition of the property that is visible in the shape of the code on every path, and holds for all schedules at once. '
+          'The behaviour of executions as a whole is NOT decided. ')
 
-prop('C03',
-     'Static structural rules: an acquired token is always released or handed on (TOK-leak, globally PA-stuck); every owner release to '
-     'Idle is followed by reschedule_queue or made under the queue-empty test (TOK-resched); marking a queue Pending is followed by '
-     'pushing it on the schedule and asking for a thread (TOK-pending); a job that returned Pending is put back before release (TOK-requeue).',
+prop('C01', COMMON +
+     'The right to run a queue is modelled as a token. Decided: jobs execute only with the token held (interprocedural typestate over the extracted state writes, TOK-exec); '
+     'no configuration with two holders is reachable in the protocol extracted from the code (counting abstraction, PA-excl); a suspended job goes back to the front before any release '
+     'and dequeue refuses while the queue is parked (TOK-requeue, QD-queue); a caller\'s closure runs out of queue order only from (Idle, empty) (TR-immediate); &mut T is produced only '
+     'inside a queue job of the same object (UA-confine); future_sync\'s user future is created and polled only inside its slot (ORD-C08).',
+     ['jobs execute only under the token (TOK-exec)', 'no second holder reachable in the extracted protocol (PA-excl, PA-stuck)',
+      'suspended job back to the front before release; dequeue refuses while parked (TOK-requeue, QD-queue)', 'direct run only from Idle-and-empty (TR-immediate)',
+      '&mut T only inside a job of the same object (UA-confine)', 'future_sync user future only in its slot (ORD-C08)'],
+     ["that the abstraction's transitions are the only way threads interleave (trusted: all accesses go through Mutex<JobQueueCore>)",
+      "overlap of a completed future_sync user future's destructor with the next operation"],
+     [(RP.tok_exec, None), (RP.pa_rules, {'PA-excl', 'PA-stuck', 'PA'}), (RP.tok_requeue, None), (RQ.qd_queue, None), (RP.tr_immediate, None), (RU.ua_confine, None), (RO.c08, None)])
+
+prop('C02', COMMON +
+     'Decided: every scheduling call appends its job under the queue lock before it returns, in its own body (ORD-C02-append); the job list is only appended at the back, taken from the front, '
+     'and a suspended job is put back at the front (QD-queue, TOK-requeue); a closure runs ahead of the list only when the queue was claimed Idle and seen empty in the same critical section (TR-immediate, TR-sibling).',
+     ['append under the lock before the call returns (ORD-C02-append)', 'FIFO discipline (QD-queue)', 'immediate execution only when Idle and empty (TR-immediate, TR-sibling)', 'suspended job returns to the front (TOK-requeue)'],
+     ['the real-time order of two calls on different threads (it is the linearisation order of the core mutex)', 'every runner path preserving order is derived from QD + TOK-requeue'],
+     [(RO.c02_append, None), (RQ.qd_queue, None), (RP.tr_immediate, None), (RP.tr_sibling, None), (RP.tok_requeue, None)])
+
+prop('C03', COMMON +
+     'Decided: an acquired token is always released or handed on (TOK-leak, globally PA-stuck); every owner release to Idle is followed by reschedule_queue or made under the queue-empty test (TOK-resched); '
+     'marking a queue Pending is followed by pushing it on the schedule and asking for a thread (TOK-pending); the dormant-thread handshake (ORD-C03-dormant, TRY) and the pool thread\'s fetch loop (ORD-C10-fetch); '
+     'no job dropped, duplicated or run twice (QD-queue, QD-schedule, QD-once, TOK-requeue); a parked queue is resumed by its waker and can be taken over by the pool (PARK-wake).',
      ['token released/handed on on every path (TOK-leak, PA-stuck)', 'Idle release followed by reschedule or made under the empty test (TOK-resched, TOK-resched-body)',
-      'Pending implies in the schedule and a thread asked (TOK-pending)', 'no job dropped while suspended (TOK-requeue)'],
+      'Pending implies in the schedule and a thread asked (TOK-pending)', 'dormant handshake and fetch loop (ORD-C03-dormant, ORD-C10-fetch, TRY)', 'no job dropped or run twice (QD-*, TOK-requeue)', 'wakers resume parked queues (PARK-wake)'],
      ['that a woken pool thread is eventually scheduled by the OS', 'quiescence of a whole program'],
-     [(RP.tok_leak, None), (RP.pa_rules, {'PA-stuck', 'PA'}), (RP.tok_resched, None), (RP.tok_pending, None), (RP.tok_requeue, None), (RQ.qd_queue, None), (RQ.qd_schedule, None), (RQ.qd_once, None), (RL.try_rule, None)])
+     [(RP.tok_leak, None), (RP.pa_rules, {'PA-stuck', 'PA'}), (RP.tok_resched, None), (RP.tok_pending, None), (RP.tok_requeue, None), (RQ.qd_queue, None), (RQ.qd_schedule, None), (RQ.qd_once, None),
+      (RL.try_rule, None), (RO.c03_dormant, None), (RO.c10_fetch, None), (RP.park_wake, None)])
 
-prop('C09',
-     'Static structural rules: a Busy outcome of try_sync has written nothing (every path to Err(Busy) leaves the token untouched: TOK-leak), '
-     'try_sync claims the queue only from (Idle, queue empty) exactly like sync\'s immediate row (TR-sibling), after the immediate run the '
-     'queue goes Idle and is rescheduled (TOK-resched), and no running state without a runner is reachable (PA-stuck).',
-     ['Busy has written nothing (TOK-leak on try_sync)', 'immediate only on Idle and empty (TR-sibling)', 'Idle then reschedule_queue after the run (TOK-resched)', 'no ownerless running state (PA-stuck)'],
-     ['"succeeds once quiescent" as a statement about time'],
-     [(RP.tok_leak, None), (RP.tr_sibling, None), (RP.tok_resched, None), (RP.pa_rules, {'PA-stuck', 'PA'}), (RP.tok_exec, None)])
-
-
-prop('C04',
-     'Static structural rules: the sync strategy is chosen in one critical section from the state and waits only when somebody owns or will wake the queue (TR-defer); '
-     'the condition-variable handshake of the blocked caller (CV1: every notifier that can reach the waiter changes the waiter\'s condition under the waiter\'s mutex first; CV2: the wait is re-tested in a loop); '
+prop('C04', COMMON +
+     'Decided: the sync strategy is chosen in one critical section and waits only when somebody owns or will wake the queue (TR-defer); the condition-variable handshake of the blocked caller (CV1, CV2); '
+     'the blocked caller stays registered until it leaves and retries to claim the queue after each wake-up (QD-waiters, ORD-C04-steal); it does not return before its lifetime-erased job is gone (UA-wait) and returns its own slot\'s value (ORD-C04-result); '
      'no lock cycle and nothing foreign or blocking under an internal lock (LO, BL); caller-side execution holds the token (TOK-exec).',
-     ['strategy chosen atomically; waits only when the queue is owned or parked (TR-defer)', 'blocked caller cannot miss its wake-up (CV1, CV2)', 'no lock-order cycle, no blocking/foreign code under an internal lock (LO, BL)',
-      'caller-side execution holds the token (TOK-exec)'],
+     ['strategy chosen atomically; waits only when the queue is owned or parked (TR-defer)', 'blocked caller cannot miss its wake-up (CV1, CV2, QD-waiters)', 'caller runs the queue itself when woken and it is claimable (ORD-C04-steal)',
+      'own result, after completion (ORD-C04-result, UA-wait)', 'no lock-order cycle, no blocking/foreign code under an internal lock (LO, BL)', 'caller-side execution holds the token (TOK-exec)'],
      ['termination of the operations ahead; OS fairness', '"from inside a job of a different Desync" is derived from BL (no internal lock is held while a job runs)'],
-     [(RP.tr_defer, None), (RL.cv, None), (RL.lo, None), (RL.bl, None), (RL.lock_classes, None), (RP.tok_exec, None), (RP.tok_resched, None)])
+     [(RP.tr_defer, None), (RL.cv, None), (RQ.qd_wake_blocked, None), (RO.c04_steal, None), (RO.c04_result, None), (RU.ua_wait, None), (RL.lo, None), (RL.bl, None), (RL.lock_classes, None), (RP.tok_exec, None), (RP.tok_resched, None)])
 
-prop('C06',
-     'Static structural rules on the wake-up protocol: from every parked configuration reachable in the extracted protocol, wakers and claimers alone lead back to a running queue (PA-wake); '
-     'the two queue wakers agree on the states both handle (TR-sibling); a job that returned Pending is back on the queue before the queue is parked (TOK-requeue).',
-     ['every parked configuration is resumable by waker/claimer transitions (PA-wake)', 'wakers agree on Running and WaitingForWake (TR-sibling)', 'requeue before parking (TOK-requeue)'],
+prop('C05', COMMON +
+     'Decided: Desync::drop performs a final sync on its own queue on every path and frees the value inside that job (ORD-C05-drop); freed nowhere else, not duplicable (UA-free); every other use of the pointer is a job '
+     'of the same queue (UA-confine); the final job cannot overtake queued work (TR-immediate: direct run only from Idle-and-empty); pipes hold a Weak and upgrade before scheduling (ORD-C05-weak).',
+     ['drop queues a final sync job that frees the value (ORD-C05-drop)', 'freed only there; Desync/DataRef not duplicable (UA-free)', 'pointer used only in jobs of the same queue (UA-confine)',
+      'final job ordered after queued work (TR-immediate, ORD-C02-append)', 'pipes cannot schedule on a dead object (ORD-C05-weak)'],
+     ['absence of use-after-free on every interleaving as such', '"blocks until" is derived from the C04 rules'],
+     [(RO.c05_drop, None), (RU.ua_free, None), (RU.ua_confine, None), (RP.tr_immediate, None), (RO.c02_append, None), (RO.c05_weak, None)])
+
+prop('C06', COMMON +
+     'Decided: from every parked configuration reachable in the extracted protocol, wakers and claimers alone lead back to a running queue (PA-wake); each waker calls the resume action that matches the parked state it finds, '
+     'and a queue parked for a polling task is offered to and accepted by the pool (PARK-wake); the two queue wakers agree on the states both handle (TR-sibling); a job that returned Pending is back on the queue before the queue is parked (TOK-requeue).',
+     ['every parked configuration is resumable by waker/claimer transitions (PA-wake)', 'wakers call the matching resume action; pool takes over WaitingForPoll (PARK-wake)', 'wakers agree on Running and WaitingForWake (TR-sibling)', 'requeue before parking (TOK-requeue)'],
      ['"for every position of the wake-up" as executions', 'futures that break the waker contract'],
-     [(RP.pa_rules, {'PA-wake', 'PA'}), (RP.tr_sibling, None), (RP.tok_requeue, None)])
+     [(RP.pa_rules, {'PA-wake', 'PA'}), (RP.park_wake, None), (RP.tr_sibling, None), (RP.tok_requeue, None)])
 
-prop('C07',
-     'Static structural rules: result and waker of a scheduler future live under one mutex with check-and-register / set-and-take atomic (LW1, LW2 on SchedulerFutureResult.waker; the owner\'s '
-     'unconditional stores are justified by LW-owner); poll never decides to wait while the queue is Idle or Pending (TR-defer); the polling task drains under the token (TOK-exec, TOK-leak).',
-     ['check-and-register / set-and-take atomic (LW1, LW2, LW-owner)', 'poll never defers on Idle/Pending (TR-defer)', 'poll-side drain holds and releases the token (TOK-exec, TOK-leak)'],
+prop('C07', COMMON +
+     'Decided: result and waker of a scheduler future live under one mutex with check-and-register / set-and-take atomic (LW1, LW2; the owner\'s unconditional stores are justified by LW-owner); the job signals once, after its operation completed, '
+     'as its last action (ORD-C07-signal); the job is owned by the queue, not by the returned future (ORD-C07-own); poll never decides to wait while the queue is Idle or Pending (TR-defer); a queue parked by a poll can be taken over by the pool (PARK-wake); '
+     'the polling task drains under the token (TOK-exec, TOK-leak).',
+     ['check-and-register / set-and-take atomic (LW1, LW2, LW-owner)', 'signal once, after completion (ORD-C07-signal)', 'job owned by the queue (ORD-C07-own)', 'poll never defers on Idle/Pending (TR-defer)',
+      'abandoned poll-side drain is taken over (PARK-wake)', 'poll-side drain holds and releases the token (TOK-exec, TOK-leak)'],
      ['equality of the delivered value with what the user closure computed', 'ordering of sibling polls as executions'],
-     [(RW.lw, None), (RW.lw_owner, None), (RP.tr_defer, None), (RP.tok_exec, None), (RP.tok_leak, None)])
+     [(RW.lw, None), (RW.lw_owner, None), (RO.c07_signal, None), (RO.c07_own, None), (RP.tr_defer, None), (RP.park_wake, None), (RP.tok_exec, None), (RP.tok_leak, None)])
 
-prop('C10',
-     'Static structural rules: no scheduler-wide lock is held at any job-execution or blocking site (BL), the lock-order graph is acyclic (LO), and the dormant-thread handshake cannot misread a transient lock hold (TRY).',
-     ['no scheduler-wide lock held while a job runs or a thread blocks (BL)', 'lock order acyclic (LO)', 'dormant handshake uses a blocking lock (TRY)'],
+prop('C08', COMMON +
+     'Decided (ORD-C08): the two oneshot channels of future_sync are split so that the slot job holds the queue-ready sender and the task-finished receiver and the SyncFuture the opposite ends; the slot job announces, waits, then signals, also when cancelled; '
+     'SyncFuture::poll creates the user future only on the Ready(Ok) edge of queue-ready, polls it only in its own arm, sends task-finished only after it completed (or on cancel), returns Ok only after the slot job finished; '
+     'SyncFuture drops the user future before the completion sender and has no Drop impl; the slot is reserved at call time (ORD-C02-append).',
+     ['channel pairing, slot job order, SyncFuture state order, field drop order (ORD-C08)', 'slot reserved at call time (ORD-C02-append)', 'signal after completion, once (ORD-C07-signal)'],
+     ['deadlock-freedom of nested awaits as executions', 'that a mid-operation drop happens "before any later operation begins" follows from drop order + slot job order but is a statement about executions'],
+     [(RO.c08, None), (RO.c02_append, None), (RO.c07_signal, None)])
+
+prop('C09', COMMON +
+     'Decided: a Busy outcome of try_sync has written nothing (every path to Err(Busy) leaves the token untouched: TOK-leak); try_sync never reaches a blocking primitive except the bounded join of finished threads (ORD-C09-noblock); '
+     'it runs its closure only from (Idle, queue empty), exactly like sync\'s immediate row (TR-immediate, TR-sibling); after the immediate run the queue goes Idle and is rescheduled (TOK-resched); no running state without a runner is reachable (PA-stuck).',
+     ['Busy has written nothing (TOK-leak on try_sync)', 'never blocks (ORD-C09-noblock)', 'immediate only on Idle and empty (TR-immediate, TR-sibling)', 'Idle then reschedule_queue after the run (TOK-resched)', 'no ownerless running state (PA-stuck)'],
+     ['"succeeds once quiescent" as a statement about time'],
+     [(RP.tok_leak, None), (RO.c09_noblock, None), (RP.tr_immediate, None), (RP.tr_sibling, None), (RP.tok_resched, None), (RP.pa_rules, {'PA-stuck', 'PA'}), (RP.tok_exec, None)])
+
+prop('C10', COMMON +
+     'Decided: no scheduler-wide lock is held at any job-execution or blocking site (BL); the lock-order graph is acyclic (LO); a ready queue goes to a dormant thread or to a newly spawned one below the maximum, then scheduling is retried (ORD-C10-spawn); '
+     'pool threads keep pulling until the schedule is empty (ORD-C10-fetch) and the dormant handshake cannot misread a transient lock hold (ORD-C03-dormant, TRY).',
+     ['no scheduler-wide lock held while a job runs or a thread blocks (BL)', 'lock order acyclic (LO)', 'dormant else spawn then retry (ORD-C10-spawn)', 'fetch loop and dormant handshake (ORD-C10-fetch, ORD-C03-dormant, TRY)'],
      ['actual parallel progress (liveness); the claim is limited to these structural conditions'],
-     [(RL.bl, None), (RL.lo, None), (RL.try_rule, None), (RL.lock_classes, None)])
+     [(RL.bl, None), (RL.lo, None), (RO.c10_spawn, None), (RO.c10_fetch, None), (RO.c03_dormant, None), (RL.try_rule, None), (RL.lock_classes, None)])
 
-prop('C12',
-     'Static structural rules on the pipe stream core: consumer and back-pressure handshakes register/notify atomically (LW1, LW2 on notify and backpressure_release_notify); '
-     'the output buffer is appended by the producer only and taken from the front by the consumer only (QD-pending); wakers are woken outside the lock, no guard lives across an await (BL, AW).',
-     ['consumer and back-pressure handshakes (LW1, LW2)', 'buffer discipline (QD-pending)', 'wakes outside the lock, no guard across await (BL, AW)'],
-     ['"for every buffer depth and interleaving" as executions', 'depth 0 is outside the property\'s range'],
-     [(RW.lw, None), (RQ.qd_pending, None), (RL.bl, None), (RL.aw, None)])
+prop('C11', COMMON +
+     'Decided (ORD-C11): the pipe\'s poll function only runs inside a future_desync job of the target; in pipe_in each Ready(Some(item)) is handed to the processing function and awaited to completion before the next poll, Pending keeps the pipe with the pipe\'s own waker, '
+     'end of stream ends it and releases the poll function; the context holds only a Weak target and no closure captures a strong reference (ORD-C05-weak); no guard across awaits, no foreign code under internal locks (AW, BL).',
+     ['processing only inside a job of the target; one item at a time, in order (ORD-C11)', 'weak reference only; release on end/dead target (ORD-C05-weak, ORD-C11)', 'no guard across await; no user code under internal locks (AW, BL)'],
+     ['arrival patterns and drop points as executions', 'every wake leads to one poll job is derived from the C03 rules + PipeWaker taking its context once'],
+     [(RO.c11, None), (RO.c05_weak, None), (RL.aw, None), (RL.bl, None)])
 
-prop('C15',
-     'Static structural rules: an ActiveQueue guard is live in some frame of every call path to every execution site, so unwinding marks the queue (TOK-guard); its Drop marks only while panicking (AQ-drop); '
-     'nothing leaves Panicked (TR-dead); every scheduling entry point refuses a Panicked queue by panicking, sync_no_panic reports it, Desync::drop uses it while unwinding (ORD-C15-refuse); '
-     'finished pool threads are reaped before a dormant one is looked for (ORD-C15-reap); no user code runs under a scheduler mutex, so a panic cannot poison one (BL).',
-     ['guard covers every execution site (TOK-guard, AQ-drop)', 'nothing leaves Panicked (TR-dead)', 'entry points refuse a panicked queue (ORD-C15-refuse)', 'dead threads reaped (ORD-C15-reap)', 'no user code under scheduler locks (BL)'],
+prop('C12', COMMON +
+     'Decided: consumer and back-pressure handshakes register/notify atomically (LW1, LW2 on notify and backpressure_release_notify); the output buffer is appended by the producer only and taken from the front by the consumer only (QD-pending); '
+     'exactly one push per processed item after its future completed, closed only at end of input, end reported only when empty and closed (ORD-C12); wakers are woken outside the lock, no guard lives across an await (BL, AW).',
+     ['consumer and back-pressure handshakes (LW1, LW2)', 'buffer discipline (QD-pending)', 'one output per input, in order, then end (ORD-C12)', 'wakes outside the lock, no guard across await (BL, AW)'],
+     ['"for every buffer depth and interleaving" as executions', "depth 0 is outside the property's range"],
+     [(RW.lw, None), (RQ.qd_pending, None), (RO.c12, None), (RL.bl, None), (RL.aw, None)])
+
+prop('C13', COMMON +
+     'Decided (ORD-C13): the resumer\'s sender and the future the suspending job waits on are the two ends of one channel, the resumer is handed out inside the job before waiting, the suspension is an ordinary future_desync job (so every token and ordering rule applies to it), '
+     'QueueResumer has no Drop impl and resume consumes it. "Later work waits, then continues in order" is derived from the C01/C02/C06 rules for a job that stays Pending (TOK-requeue, QD-queue, PARK-wake).',
+     ['suspend job shape (ORD-C13)', 'a Pending job keeps the queue and is resumed by its waker (TOK-requeue, QD-queue, PARK-wake)'],
+     ['all dynamic content: this is the thinnest claim; order of held operations after resumption is derived, not separately decided'],
+     [(RO.c13, None), (RP.tok_requeue, None), (RQ.qd_queue, None), (RP.park_wake, None)])
+
+prop('C14', COMMON +
+     'Decided: the four lifetime-erasure obligations — a sync caller does not return before its lifetime-erased job has been run and dropped (UA-wait), the payload pointer is dereferenced only inside jobs of the object\'s own queue (UA-confine), '
+     'the value is freed only in Desync::drop\'s final job and cannot be duplicated (UA-free, ORD-C05-drop), which cannot overtake queued work (TR-immediate); the bounds fencing the unsafe impls and every public signature are present (UA-bounds); '
+     'every unsafe operation is of an audited kind (UA-sites). Thorough tier adds compile-fail witnesses with compiling twins (W).',
+     ['sync waits for its erased job (UA-wait)', 'pointer confined to jobs of the own queue (UA-confine)', 'freed once, in the final job, ordered last (UA-free, ORD-C05-drop, TR-immediate)', 'Send/\'static bounds (UA-bounds, W)', 'unsafe sites enumerated (UA-sites)'],
+     ['memory safety of executions as such', 'soundness of `Desync: Sync` rests on C01 (stated, not re-proved here)'],
+     [(RU.ua_wait, None), (RU.ua_confine, None), (RU.ua_free, None), (RO.c05_drop, None), (RP.tr_immediate, None), (RU.ua_bounds, None), (RU.ua_sites, None)])
+
+prop('C15', COMMON +
+     'Decided: an ActiveQueue guard is live in some frame of every call path to every execution site, so unwinding marks the queue (TOK-guard); its Drop marks only while panicking (AQ-drop); nothing leaves Panicked (TR-dead); '
+     'every scheduling entry point refuses a Panicked queue by panicking, sync_no_panic reports it, Desync::drop uses it while unwinding (ORD-C15-refuse); finished pool threads are reaped before a dormant one is looked for (ORD-C15-reap) and '
+     'nothing on the pool-thread path catches the unwind (ORD-C15-unwind); no user code runs under a scheduler mutex, so a panic cannot poison one (BL).',
+     ['guard covers every execution site (TOK-guard, AQ-drop)', 'nothing leaves Panicked (TR-dead)', 'entry points refuse a panicked queue (ORD-C15-refuse)', 'dead threads reaped and replaced (ORD-C15-reap, ORD-C15-unwind)', 'no user code under scheduler locks (BL)'],
      ['"other objects remain fully usable" as executions'],
-     [(RG.tok_guard, None), (RG.aq_drop, None), (RP.tr_dead, None), (RG.c15_refuse, None), (RG.c15_reap, None), (RL.bl, None)])
+     [(RG.tok_guard, None), (RG.aq_drop, None), (RP.tr_dead, None), (RG.c15_refuse, None), (RG.c15_reap, None), (RO.c15_unwind, None), (RL.bl, None)])
 
-prop('C16',
-     'Static structural rules: the producer registers notify_stream_closed only after re-reading `closed` in the same critical section, and PipeStream::drop sets `closed` and takes+wakes the slot in one critical section (LW1, LW2); '
-     'the waker woken under the lock is the pipe\'s own (LW-prov), lock order stays acyclic (LO).',
-     ['closed re-read before registering; drop sets closed and wakes in one section (LW1, LW2)', 'provenance of the waker woken under the lock (LW-prov, LO)'],
+prop('C16', COMMON +
+     'Decided: the producer registers notify_stream_closed only after re-reading `closed` in the same critical section, and PipeStream::drop sets `closed` and takes+wakes the slot in one critical section (LW1, LW2); '
+     'the waker woken under the lock is the pipe\'s own (LW-prov), lock order stays acyclic (LO); the producer stops on closed / dead core, the only strong reference to the Desync sits in on_drop, which runs on the disposal queue (ORD-C16); '
+     'a finished pipe releases its poll function (ORD-C11).',
+     ['closed re-read before registering; drop sets closed and wakes in one section (LW1, LW2)', 'provenance of the waker woken under the lock (LW-prov, LO)', 'producer stops, references released (ORD-C16, ORD-C11)'],
      ['drop positions as executions'],
-     [(RW.lw, None), (RW.lw_prov, None), (RL.lo, None)])
+     [(RW.lw, None), (RW.lw_prov, None), (RL.lo, None), (RO.c16, None), (RO.c11, None)])
+
+prop('C17', COMMON +
+     'Decided (ORD-C17): every in-crate path that adds a pool thread tests `threads.len() < max` and pushes inside one critical section of the threads lock; the unconditional Scheduler::spawn_thread has no in-crate caller; '
+     'OS threads are created in one place, called only from those functions; despawn pops while len > max under the lock and joins outside it (BL).',
+     ['spawn only under `len < max` in one critical section (ORD-C17)', 'single creation site; despawn shape (ORD-C17)', 'join outside the lock (BL)'],
+     ["maximum changes racing with spawns (excluded by the property's own quantifier)"],
+     [(RO.c17, None), (RL.bl, None), (RO.c10_spawn, None)])
